@@ -478,7 +478,7 @@ def ds_witness_paths(g, steps, cap=400):
     return out
 
 
-def witness_check(ctx, g, steps, text, res, case):
+def witness_check(ctx, g, steps, text, res, case, defer=None, predicted=True):
     """strict reading of 'each result is reported with a real path that passes through the intermediate
     steps of the query' (known finding F30: the implementation restricts paths by the node set 'valid'):
       - a reported stack must decompose along the query steps (be a witness path),
@@ -506,13 +506,30 @@ def witness_check(ctx, g, steps, text, res, case):
     if kinds:
         def show(ps):
             return sorted("/".join(g[x]["name"] for x in p) or "/" for p in ps)
+        what = "query %r: %s; reported %r, with queryAll %r, witness paths %r" % (
+            text, ", ".join(kinds), show(rep_one), show(rep_all), show(W))
+        rep = dict(case, impl={"%s/%s" % k: v for k, v in res.items()}, kinds=kinds)
+        if defer is not None:
+            # decided after the model was evaluated: the known finding F30 is exactly the node-set
+            # approximation of the pinned algorithm, which the Coq model predicts path by path
+            defer.append((what, rep))
+            return
+        report_witness(ctx, what, rep, predicted)
+
+
+def report_witness(ctx, what, rep, predicted):
+    """a reported path that is no witness path: known finding F30 when it is the output the model of the pinned
+    node-set algorithm predicts for this very input; anything else is a different violation of the same clause"""
+    if predicted:
         n_rep = ctx.hist.get("witness-check:reported", 0)
         if n_rep < 6:            # a handful of concrete inputs is enough for one class
             ctx.count("witness-check:reported")
-            ctx.violation("reported-path-is-no-witness",
-                          "query %r: %s; reported %r, with queryAll %r, witness paths %r" % (
-                              text, ", ".join(kinds), show(rep_one), show(rep_all), show(W)),
-                          dict(case, impl={"%s/%s" % k: v for k, v in res.items()}, kinds=kinds))
+            ctx.violation("reported-path-is-no-witness", what, rep)
+    else:
+        ctx.count("witness-check:not-predicted-by-the-node-set-model")
+        if ctx.hist.get("witness-check:not-predicted-by-the-node-set-model", 0) <= 4:
+            ctx.violation("reported-path-is-no-witness-and-not-the-node-set-approximation",
+                          what + " (the model of the pinned node-set algorithm reports other paths for this input)", rep)
 
 
 def real_path(g, stack):
@@ -941,6 +958,7 @@ def run(ctx):
     cases = []
     meta = []
     graphs_pre = []
+    deferred = []                 # strict witness-path failures, classified once the model has been evaluated
     with Scratch():
         todo = [("corpus", c) for c in load_corpus()] + [("gen", None)] * n_graphs
         gi = 0
@@ -993,8 +1011,9 @@ def run(ctx):
                     ctx.count("with-predicate")
                 case = {"raw": raw, "steps": steps, "mode": mode, "text": text}
                 clean = check_case(ctx, g, steps, text, mode, res, case)
+                wdef = []
                 if clean and (len(g) <= 10 or kind0 == "corpus"):
-                    witness_check(ctx, g, steps, text, res, case)
+                    witness_check(ctx, g, steps, text, res, case, defer=wdef)
                 if not clean and kind0 == "gen":
                     minimise(ctx, raw, steps, mode)
                 if all(r[0] in ("ok", "notfound", "nomatch") for r in res.values()):
@@ -1003,6 +1022,9 @@ def run(ctx):
                     cases.append(("(%s, %s, %s)" % (gname, MODE_COQ[mode], coq_path(steps)), exp))
                     meta.append({"raw": raw, "steps": steps, "mode": mode, "text": text,
                                  "impl": {"%s/%s" % k: v for k, v in res.items()}})
+                    deferred += [(len(cases) - 1, w, r) for w, r in wdef]
+                else:
+                    deferred += [(None, w, r) for w, r in wdef]
                 if len(ctx.cov["samples"]) < 5 and nontriv:
                     ctx.sample({"names": [r["name"] for r in g], "kids": [r["kids"] for r in g], "query": text,
                                 "mode": mode, "impl": r0})
@@ -1016,6 +1038,9 @@ def run(ctx):
                              tag="q", shard=250)
     ctx.note("timing: implementation+oracle until %.0fs, malformed/alias until %.0fs, model evaluation until %.0fs" % (
         t_impl, t_coq, ctx.elapsed()))
+    badset = set(bad or [])
+    for ci, what, rep in deferred:
+        report_witness(ctx, what, rep, predicted=(bad is None or ci is None or ci not in badset))
     if bad is None:
         ctx.tie_broken("C18 model evaluation failed", log)
     else:
@@ -1281,7 +1306,16 @@ def replay(ctx):
             if check_case(ctx, g, steps, text, mode, res, c):
                 W = ds_witness_paths(g, steps)
                 print("  witness paths: %r" % (W if W is None else sorted(W),))
-                witness_check(ctx, g, steps, text, res, c)
+                predicted = True
+                if all(r[0] in ("ok", "notfound", "nomatch") for r in res.values()):
+                    exp = "(%s, %s, %s, %s)" % tuple(coq_qres(g, res[k]) for k in
+                                                     [("tree", False), ("tree", True), ("pkgs", False), ("pkgs", True)])
+                    bad, _ = coq.run_cases(ctx, ["BobV.C18.Model"], "run4", "res4_eqb",
+                                           [("(g0, %s, %s)" % (MODE_COQ[mode], coq_path(steps)), exp)],
+                                           preamble=PRE + "Definition g0 : graph := %s.\n" % coq_graph(g), tag="rp", shard=250)
+                    predicted = not bad
+                    print("  model of the pinned algorithm predicts this output: %r" % predicted)
+                witness_check(ctx, g, steps, text, res, c, predicted=predicted)
         else:
             r = one_query(raw, order, ids, c.get("aliases"), c["text"], mode, False)
             print("query %r -> %r" % (c["text"], r))
